@@ -72,7 +72,9 @@ class Collector:
                 continue
             self.queries += 1
             rw, _, _ = EX.solve([wp], cap_s=self.cap, want_model=False)
-            self.witness[wn] = rw
+            rank = {'sat': 2, 'unsat': 0}
+            if wn not in self.witness or rank.get(rw, 1) > rank.get(self.witness[wn], 1):
+                self.witness[wn] = rw          # reachable on some path: sat beats undecided beats unsat
 
     def _grouped(self, remaining, blockers, label, extra, depth):
         """conjunction first; `sat`: record the counterexample and retry without the false obligations; timeout/unknown on a
